@@ -210,6 +210,7 @@ def _pure_arg(e: ast.expr) -> bool:
 class Helper:
     def __init__(self, fn, kind, recv, params, tree, expr, owner, module):
         self.fn, self.kind, self.recv, self.params, self.tree, self.expr, self.owner, self.module = fn, kind, recv, params, tree, expr, owner, module
+        self.rebound: set[str] = set()
 
 
 class _Package:
@@ -326,12 +327,16 @@ def _collect_helpers(pkg: _Package, counter: list[int]) -> None:
                     stored.add(n.name)
                 elif isinstance(n, ast.MatchMapping) and n.rest:
                     stored.add(n.rest)
-        if stored & (set(names) | ({recv} if recv else set())):
+        if recv and recv in stored:
             return
         tree_ = _to_tree(body)
         if tree_ is None or not _ends_closed(tree_):
             return
         h = Helper(fn, kind, recv, names, tree_, _as_expression(tree_), owner, rel)
+        # parameters the helper re-binds are locals initialised from the argument
+        h.rebound = stored & set(names)
+        if h.rebound and h.expr is not None:
+            return
         if owner is None:
             pkg.functions[(rel, fn.name)] = h
         else:
@@ -475,7 +480,7 @@ class _Inliner(ast.NodeTransformer):
         return ast.copy_location(new, node)
 
     # ---- statement-level
-    def _inline_stmt(self, call: ast.Call, on_return) -> list[ast.stmt] | None:
+    def _inline_stmt(self, call: ast.Call, on_return, tail: bool = False) -> list[ast.stmt] | None:
         r = self._resolve(call)
         if r is None or r[0].expr is not None:
             return None
@@ -484,14 +489,30 @@ class _Inliner(ast.NodeTransformer):
         suffix = f"__h{self.counter[0]}"
         pre: list[ast.stmt] = []
         subst: dict[str, ast.expr] = {}
+        direct: dict[str, str] = {}
         for p, a in mapping.items():
-            if _pure_arg(a) or (isinstance(a, ast.Call) and isinstance(a.func, ast.Name) and a.func.id == "type"):
+            if p in h.rebound and tail and isinstance(a, ast.Name):
+                # tail call: nothing after it reads the caller's variable, so the helper's re-binding may act on it
+                direct[p] = a.id
+            elif p in h.rebound:
+                # becomes a renamed local of the inlined body, initialised from the argument
+                pre.append(ast.copy_location(ast.Assign(targets=[ast.Name(f"{p}{suffix}", ast.Store())], value=a, lineno=call.lineno), call))
+            elif _pure_arg(a) or (isinstance(a, ast.Call) and isinstance(a.func, ast.Name) and a.func.id == "type"):
                 subst[p] = a
             else:
                 tmp = f"{p}{suffix}"
                 pre.append(ast.copy_location(ast.Assign(targets=[ast.Name(tmp, ast.Store())], value=a, lineno=call.lineno), call))
                 subst[p] = ast.Name(tmp, ast.Load())
-        body = _rename_locals(h.tree, set(mapping), suffix)
+        body = _rename_locals(h.tree, (set(mapping) - h.rebound) | set(direct), suffix)
+        if direct:
+
+            class D(ast.NodeTransformer):
+                def visit_Name(self, node):
+                    if node.id in direct:
+                        return ast.copy_location(ast.Name(direct[node.id], node.ctx), node)
+                    return node
+
+            body = [D().visit(s) for s in body]
         body = [_Subst(subst).visit(s) for s in body]
 
         def fix(stmts: list[ast.stmt]) -> list[ast.stmt]:
@@ -603,7 +624,7 @@ class _Inliner(ast.NodeTransformer):
         for s in stmts:
             rep = None
             if isinstance(s, ast.Return) and isinstance(s.value, ast.Call):
-                rep = self._inline_stmt(s.value, lambda r: [r])
+                rep = self._inline_stmt(s.value, lambda r: [r], tail=True)
             elif isinstance(s, ast.Assign) and len(s.targets) == 1 and isinstance(s.value, ast.Call):
                 tgt = s.targets[0]
                 rep = self._inline_stmt(
@@ -955,7 +976,7 @@ class _AliasesToCaptures(ast.NodeTransformer):
                     or tgt in captured
                     or tgt in guard_names
                     or tgt == subj
-                    or len(c.body) - moved <= 1
+                    or len(c.body) <= 1
                 ):
                     break
                 pat.kwd_attrs.append(val.attr)
